@@ -21,6 +21,10 @@ func main() {
 		mutMain(args)
 	case "cron":
 		cronMain(args)
+	case "hook":
+		hookMain(args)
+	case "disp":
+		dispMain(args)
 	default:
 		fmt.Fprintln(os.Stderr, "unknown sub-command", cmd)
 		os.Exit(2)
